@@ -4,6 +4,25 @@ import (
 	"verif/core"
 
 	_ "verif/checks/c01"
+	_ "verif/checks/c02"
+	_ "verif/checks/c03"
+	_ "verif/checks/c04"
+	_ "verif/checks/c05"
+	_ "verif/checks/c06"
+	_ "verif/checks/c07"
+	_ "verif/checks/c08"
+	_ "verif/checks/c09"
+	_ "verif/checks/c10"
+	_ "verif/checks/c11"
+	_ "verif/checks/c12"
+	_ "verif/checks/c13"
+	_ "verif/checks/c14"
+	_ "verif/checks/c15"
+	_ "verif/checks/c16"
+	_ "verif/checks/c17"
+	_ "verif/checks/c18"
+	_ "verif/checks/c19"
+	_ "verif/checks/c20"
 )
 
 func main() { core.Main() }
